@@ -1,8 +1,14 @@
 From Coq Require Import List NArith ZArith.
-From Stam Require Import Model.Offset Model.Json Model.TempId Model.StamJson Spec.StamJsonSpec Proofs.StamJson Props.C05.
+From Stam Require Import Model.Offset Model.Json Model.TempId Model.StamJson Spec.StamJsonSpec Proofs.StamJson Proofs.StamJsonSave Props.C05.
 Check (C05_value_codec : forall v, parse_val (json_of_val v) = Some v).
 Check (C05_selector_codec : forall k ls, target_ok k ls -> parse_target (json_of_target k ls) = Some (k, ls)).
 Check (C05_document_codec : forall b, bstore_ok b -> parse_bstore (json_of_bstore b) = Some b).
+Check (C05_save_modify_save : forall st current,
+  Reached st current -> NoDup (map fst current) ->
+  forall f c, file_get current f = Some c -> file_get (fs_disk (flush current st)) f = Some c).
+Print Assumptions C05_save_modify_save.
+Print Assumptions C05_flags_are_enough.
+Print Assumptions C05_histories_with_saves.
 Print Assumptions C05_value_codec.
 Print Assumptions C05_int_literal.
 Print Assumptions C05_float_literal.
